@@ -615,8 +615,48 @@ def check_fresh_context(idx: Index, rep: Report) -> None:
         raise AnalysisError(f"only {n} ConstraintContext creation sites found")
 
 
+def check_union_bases(idx: Index, rep: Report) -> None:
+    """AnyOf.get_bases: the union of the alternatives' bases is unbounded (None) as soon as ONE alternative is unbounded.
+    Skipping an alternative whose bases are None (right for an intersection, AllOf) drops the classes that alternative
+    accepts from every enclosing dispatch table."""
+    r = rep.rule("C09.R9", "AnyOf.get_bases is None whenever some alternative's get_bases() is None: an unbounded alternative is never skipped or filtered out of the union", floor=1)
+    f = idx.func(CONS, "AnyOf.get_bases")
+    fn = f.node  # helpers inlined: the rule follows the fold into a shared private helper
+    skipped = []
+    propagated = False
+    bound = {n_.target.id for n_ in ast.walk(fn) if isinstance(n_, ast.NamedExpr) and isinstance(n_.value, ast.Call) and call_attr(n_.value) == "get_bases"}
+    bound |= {s_.targets[0].id for s_ in ast.walk(fn) if isinstance(s_, ast.Assign) and len(s_.targets) == 1 and isinstance(s_.targets[0], ast.Name) and isinstance(s_.value, ast.Call) and call_attr(s_.value) == "get_bases"}
+
+    def is_none_test(t: ast.AST, want_not: bool) -> bool:
+        t = t.left if False else t
+        if isinstance(t, ast.Compare) and len(t.ops) == 1 and isinstance(t.comparators[0], ast.Constant) and t.comparators[0].value is None:
+            left = t.left.target if isinstance(t.left, ast.NamedExpr) else t.left
+            on_bases = (isinstance(left, ast.Name) and left.id in bound) or (isinstance(t.left, ast.Call) and call_attr(t.left) == "get_bases")
+            return on_bases and isinstance(t.ops[0], ast.IsNot if want_not else ast.Is)
+        return False
+
+    for n_ in ast.walk(fn):
+        if isinstance(n_, ast.comprehension):
+            for c_ in n_.ifs:
+                if is_none_test(c_, True):
+                    skipped.append((c_, f"the comprehension filter `{unparse(c_)}`"))
+        if isinstance(n_, ast.If) and is_none_test(n_.test, False):
+            if n_.body and isinstance(n_.body[-1], ast.Continue):
+                skipped.append((n_, f"`if {unparse(n_.test)}: continue`"))
+            elif n_.body and isinstance(n_.body[-1], ast.Return) and (n_.body[-1].value is None or (isinstance(n_.body[-1].value, ast.Constant) and n_.body[-1].value.value is None)):
+                propagated = True
+    if skipped:
+        n0, what = skipped[0]
+        r.fail(f.fq, Finding("C09.R9", f.fq, "unbounded-alternative-dropped", f"{what} leaves an alternative whose bases are unbounded (None) out of the union instead of making the union unbounded: an enclosing AnyOf then builds its dispatch table without the classes that alternative accepts and rejects them", f"{f.module.relpath}:{getattr(n0, 'lineno', f.raw_node.lineno)}"))
+    elif propagated:
+        r.ok(f.fq, f"{f.loc} an unbounded alternative makes the union unbounded")
+    else:
+        raise AnalysisError(f"{f.fq}: how an alternative with unbounded bases (None) is treated was not recognised")
+
+
 def check(idx: Index, rep: Report, tier: str) -> str:
     rep.run(check_get_bases, idx, rep)
+    rep.run(check_union_bases, idx, rep)
     rep.run(check_relax, idx, rep)
     rep.run(check_forwarding, idx, rep)
     rep.run(check_binding_order, idx, rep)
